@@ -15,6 +15,9 @@ use crate::on_mdk;
 pub enum SideOp {
     /// application message in S by a side member, handed to all side members (echo included)
     Msg { m: u16, ts: u8 },
+    /// a member of both groups posts a rumor it already sent to the main group into S as well
+    /// (same author, content, timestamp - hence the same message id in both groups)
+    CrossPost { m: u16 },
     /// commit in S by its creator (0 self-update, 1 rename, 2 Nostr-group-id rotation, 3 relay
     /// change), merged at once, handed to all side members
     Commit { kind: u8, ts: u8 },
@@ -48,6 +51,8 @@ pub struct SideGroup {
     /// expected to be able to process later ones)
     pub seen: HashMap<usize, usize>,
     pub checks: u64,
+    /// contents of main-group messages that were posted into S as well
+    pub crossposted: HashSet<String>,
 }
 
 fn is_failure(o: &Outcome) -> bool {
@@ -132,6 +137,7 @@ impl World {
             events: vec![],
             seen: HashMap::new(),
             checks: 0,
+            crossposted: HashSet::new(),
         });
         Ok(())
     }
@@ -400,6 +406,54 @@ impl World {
                 let sidx = s.events.len() - 1;
                 let members = s.members.clone();
                 self.count("side:msg");
+                for c in members {
+                    self.side_process(c, sidx, obs)?;
+                }
+            }
+            SideOp::CrossPost { m } => {
+                let cands: Vec<usize> = self
+                    .side
+                    .as_ref()
+                    .expect("side")
+                    .members
+                    .iter()
+                    .cloned()
+                    .filter(|i| self.clients[*i].mdk.is_some() && self.side_active_at(*i) && self.side_in_sync(*i))
+                    .filter(|i| self.relay.iter().any(|e| e.class == Class::App && e.author == *i && e.forged.is_none() && e.replay_of.is_none() && e.rumor.is_some()))
+                    .collect();
+                let Some(k) = pick(*m, cands.len()) else { return Ok(()) };
+                let a = cands[k];
+                let src = self.relay.iter().rposition(|e| e.class == Class::App && e.author == a && e.forged.is_none() && e.replay_of.is_none() && e.rumor.is_some()).expect("checked");
+                let rumor = self.relay[src].rumor.clone().expect("checked");
+                let content = rumor.content.clone();
+                if self.side.as_ref().expect("side").crossposted.contains(&content) {
+                    return Ok(());
+                }
+                let id = rumor.id.map(|i| i.to_hex()).unwrap_or_default();
+                self.set_ts(7);
+                let r = catch_unwind(AssertUnwindSafe(|| on_mdk!(self.clients[a].mdk(), mm => mm.create_message(&sgid, rumor.clone()))));
+                mdk_core::verif::set_wrapper_created_at(None);
+                let ev = match r {
+                    Ok(Ok(ev)) => ev,
+                    Ok(Err(e)) => {
+                        self.sink(&e);
+                        self.note(format!("c{a} cross-post refused: {e}"));
+                        return Ok(());
+                    }
+                    Err(p) => {
+                        let t = panic_text(p);
+                        self.panics.push(format!("create_message(cross-post): {t}"));
+                        return Err(Failure::new("panic", format!("create_message panicked: {t}")));
+                    }
+                };
+                let what = format!("cross-post of main-group message #{src} ({content})");
+                self.note(format!("side publish s{} by c{a}: {what}", self.side.as_ref().expect("side").events.len()));
+                let s = self.side.as_mut().expect("side");
+                s.crossposted.insert(content.clone());
+                s.events.push(SideEvent { ev, author: a, app: Some((id, content)), what });
+                let sidx = s.events.len() - 1;
+                let members = s.members.clone();
+                self.count("side:cross-post");
                 for c in members {
                     self.side_process(c, sidx, obs)?;
                 }
